@@ -128,9 +128,12 @@ theorem allInv_init (nVals : Nat) : AllInv nVals [] (VState.init nVals) (fun _ =
     · intro b _ hl; exact absurd rfl hl
     · intro b _; rfl
     · intro i hi; simp at hi
-  vi := by
-    constructor <;> intro a <;> intros <;> rename_i ha <;> first | (simp at ha) | skip
-    all_goals (rename_i ha _ ; simp at ha)
+  vi :=
+    { sound := fun a b ha => by simp at ha
+      complete := fun a b ha => by simp at ha
+      rep := fun a b ha => by simp at ha
+      mono := fun a ha => by simp at ha
+      base := fun a ha => by simp at ha }
   vi2 := by
     constructor
     · intro a b ha; simp at ha
@@ -138,5 +141,36 @@ theorem allInv_init (nVals : Nat) : AllInv nVals [] (VState.init nVals) (fun _ =
   bc := by intro i j hi; simp at hi
   nVals_eq := rfl
   nBr_le := Nat.le_refl _
+
+theorem allInv_add {nVals : Nat} {h : Hist} {s : VState} {e : Event} {nBrAt : Nat → Nat}
+    (hv : Valid nVals h) (hn : ValidNext nVals h e) (A : AllInv nVals h s nBrAt)
+    (hsz : nVals + (h ++ [e]).length < 4294967296) :
+    ∃ nBrAt', AllInv nVals (h ++ [e]) (s.add e) nBrAt' := by
+  have V := add_view hv hn A.bi A.nVals_eq
+  have bi' := branchInv_of_view hv hn A.bi A.nVals_eq V
+  have bc' := consec_of_view hv A.bi A.bc V
+  have hnb : (s.add e).nBr ≤ nVals + (h ++ [e]).length := by
+    have := A.nBr_le
+    rw [length_snoc]
+    rcases V.nBr_cases with ⟨h1, _⟩ | ⟨h1, _⟩ <;> omega
+  obtain ⟨v1, v2⟩ := vecInv_of_view hv hn V bi' bc' A.vi A.vi2 (by omega)
+  exact ⟨_, ⟨bi', v1, v2, bc', by rw [V.nVals_eq]; exact A.nVals_eq, hnb⟩⟩
+
+theorem allInv_of_valid {nVals : Nat} {h : Hist} (hv : Valid nVals h)
+    (hsz : nVals + h.length < 4294967296) : ∃ nBrAt, AllInv nVals h (run nVals h) nBrAt := by
+  induction hv with
+  | nil => exact ⟨_, allInv_init nVals⟩
+  | @snoc h e hv hn ih =>
+    obtain ⟨nBrAt, A⟩ := ih (by rw [length_snoc] at hsz; omega)
+    rw [run_snoc]
+    exact allInv_add hv hn A hsz
+
+/-- I1 and I2 hold after indexing any valid history (of fewer than 2^32 − nVals events) -/
+theorem hb_invariants {nVals : Nat} {h : Hist} (hv : Valid nVals h)
+    (hsz : nVals + h.length < 4294967296) :
+    ∃ nBrAt, BranchInv h (run nVals h) ∧ VecInv h (run nVals h) nBrAt ∧
+      VecInv2 h (run nVals h) nBrAt ∧ BranchConsec h (run nVals h) := by
+  obtain ⟨nBrAt, A⟩ := allInv_of_valid hv hsz
+  exact ⟨nBrAt, A.bi, A.vi, A.vi2, A.bc⟩
 
 end VecProofs
